@@ -69,8 +69,8 @@ def dg(d, o):
 
 class HObs(list):
     """an observation compared with the model through its digest; the oracle reads .full"""
-    def __init__(self, full):
-        super().__init__(full if FULL else dg(3, full))
+    def __init__(self, full, depth=3):
+        super().__init__(full if FULL else dg(depth, full))
         self.full = full
 
 
@@ -459,7 +459,8 @@ def gddesc(d):
     else:
         comm = "None"
     cm = "None" if d.get("comments") is None else "(Some " + glist([gs(l) for l in d["comments"]]) + ")"
-    return f"(mkDd {gbool(bool(d.get('extra_sections')))} {di} {comm} {cm} {glist(objs)})"
+    t = d.get("tail") or [False, False, False]
+    return f"(mkDd {gbool(bool(d.get('extra_sections')))} {di} {comm} {cm} {glist(objs)} (tail_of {gbool(t[0])} {gbool(t[1])} {gbool(t[2])}))"
 
 
 def coq_case(c):
@@ -618,6 +619,7 @@ def gen_cases(rng, tier):
         desc = odgen.gen_desc(rng, "written", size)
         fid = desc.get("file_node_id") if desc.get("commissioning") else None
         nid = rng.choice([None, None, 5, rng.randrange(1, 128)] + ([fid] if fid else []))
+        if i % 2: desc["shuffle"] = None          # the Gallina writer knows head / tail placement only
         cases.append(dict(kind="imp", desc=desc, style=rng.randrange(3), nid=nid, via="desc" if i % 2 else "tokens",
                           src="file" if rng.random() < 0.15 else "stream",
                           suffix=rng.choice([".eds", ".dcf", ".EDS", ".Dcf"]) if rng.random() < 0.3 else "." + desc["doc"]))
